@@ -44,6 +44,14 @@ def merged(*cfgs):
     return out
 
 
+def sec_cfg(sec, key, v):
+    """{section: {key: v}}; a dotted key names a documented sub-section (performance.string-concat-loop.enabled)."""
+    if "." in key:
+        a, b = key.split(".", 1)
+        return {sec: {a: {b: v}}}
+    return {sec: {key: v}}
+
+
 class Plan:
     def __init__(self):
         self.jobs = []
@@ -92,11 +100,11 @@ def run(ctx):
     # ---- sweeps (yaml) + carrier equivalence at one value --------------------------------------------------------------
     for (c, sec, key, values) in staircase.SWEEPS:
         for v in values:
-            idx[("sweep", c, key, json.dumps(v))] = P.add(("sweep", c, key, v), proj, c, merged(BASE, {sec: {key: v}}), "yaml-hyphen")
+            idx[("sweep", c, key, json.dumps(v))] = P.add(("sweep", c, key, v), proj, c, merged(BASE, sec_cfg(sec, key, v)), "yaml-hyphen")
         mid = values[len(values) // 2] if len(values) > 2 else values[-1]
         cs = carriers if not ctx.quick else rng.sample(carriers[1:], 4)
         for k in cs:
-            idx[("carrier", c, key, k)] = P.add(("carrier", c, key, k, mid), proj, c, merged(BASE, {sec: {key: mid}}), k)
+            idx[("carrier", c, key, k)] = P.add(("carrier", c, key, k, mid), proj, c, merged(BASE, sec_cfg(sec, key, mid)), k)
     # ---- precedence -------------------------------------------------------------------------------------------------
     import yaml
     def nest(v):
